@@ -82,7 +82,7 @@ var queryNames = []string{"Attester", "Attesters", "BurnMessageVersion", "Burnin
 	"RemoteTokenMessenger", "RemoteTokenMessengers", "Roles", "SendingAndReceivingMessagesPaused", "SignatureThreshold",
 	"TokenPair", "TokenPairs", "UsedNonce", "UsedNonces"}
 
-const abM = "(*types.Message).Parse(&types.Message{},p2.Message)#0"
+const abM = "(*types.Message).Parse(§)#0"
 
 // keyNorm applies the collection-key rewrite: a value found under key K(a,b) has
 // key fields (a,b) (the setter derives the key from the value's own fields; K-agree
@@ -202,7 +202,7 @@ func runC15(p *Prog, r *Report, tier string) {
 	r.floor("query-handlers", len(qs), 19)
 	wiringObligations(p, r)
 
-	abbr := func(s string) string { return strings.ReplaceAll(s, abM, "M") }
+	abbr := func(s string) string { return replaceBalanced(s, "(*types.Message).Parse(", ")#0", "M") }
 
 	checkEntry := func(kind, name string, fn *ssa.Function, allowedW, allowedL, allowedE []string) {
 		if fn == nil {
@@ -383,6 +383,11 @@ func checkExternalCalls(p *Prog, r *Report, hs, qs []Handler) {
 			seen[id] = true
 			n++
 			key := "external/" + name
+			if e.Key == nil {
+				// no context, store, keeper or event manager is handed to the callee: it cannot touch chain state
+				r.ok("external-classification", key, p.instrPos(e.In), "receives no capability (context/store/keeper/event manager): cannot read or write chain state")
+				continue
+			}
 			if e.Region == "github.com/cosmos/cosmos-sdk/types" {
 				if why, ok := externalSDKFuncs[strings.TrimPrefix(name, "func:")]; ok {
 					r.ok("external-classification", key, p.instrPos(e.In), why)
